@@ -1010,6 +1010,99 @@ impl State {
                     format!("calls=[{}] written={} end={}", calls.borrow().join(";"), hexd(&sh.written), end)
                 })
             }
+            ["cli", sends, rd, wr, _ans, late] => {
+                let (rd, wr) = match (crate::sio::parse_revs(rd), crate::sio::parse_wevs(wr)) {
+                    (Some(a), Some(b)) => (a, b),
+                    _ => return "bad-op".into(),
+                };
+                let mut plan: Vec<(u32, usize)> = vec![];
+                if *sends != "-" {
+                    for t in sends.split(',') {
+                        let mut it = t.split(':');
+                        match (it.next().and_then(|x| x.parse().ok()), it.next().and_then(|x| x.parse().ok())) {
+                            (Some(h), Some(l)) => plan.push((h, l)),
+                            _ => return "bad-op".into(),
+                        }
+                    }
+                }
+                let late: Option<u32> = if *late == "-" { None } else { late.parse().ok() };
+                let dict = self.dict.clone();
+                self.rt.block_on(async move {
+                    use crate::sio::sync_hooks;
+                    use diameter::transport::{DiameterClient, DiameterClientConfig};
+                    let _ = diameter::verif::take_events();
+                    let ulog: Arc<std::sync::Mutex<Vec<String>>> = Default::default();
+                    let stream = crate::sio::Scripted::new(rd, wr);
+                    stream.0.lock().unwrap().ulog = Some(ulog.clone());
+                    let mut client = DiameterClient::new("unused:0", DiameterClientConfig { use_tls: false, verify_cert: false });
+                    let mut handler = client.verif_attach_stream(stream.clone());
+                    let d2 = dict.clone();
+                    let reader = tokio::spawn(async move {
+                        DiameterClient::handle(&mut handler, d2).await;
+                    });
+                    let request = |h: u32, len: usize| {
+                        let mut m = DiameterMessage::new(CommandCode::CreditControl, ApplicationId::CreditControl, 0x80, h, h.wrapping_add(1000), dict.clone());
+                        m.add_avp(12, None, 0, OctetString::new(vec![0x55; len]).into());
+                        m
+                    };
+                    let count_reg = |u: &Arc<std::sync::Mutex<Vec<String>>>| u.lock().unwrap().iter().filter(|e| e.starts_with("reg:")).count();
+                    let mut futs = vec![];
+                    for (i, (h, len)) in plan.iter().enumerate() {
+                        sync_hooks(&ulog);
+                        ulog.lock().unwrap().push(format!("sb:{}", i));
+                        let before = count_reg(&ulog);
+                        let r = client.send_message(request(*h, *len)).await;
+                        sync_hooks(&ulog);
+                        let registered = count_reg(&ulog) > before;
+                        ulog.lock().unwrap().push(format!("ret:{}:{}", i, if r.is_ok() { "ok" } else { "err" }));
+                        if registered {
+                            futs.push(r.ok());
+                        }
+                    }
+                    let mut res: Vec<String> = vec![];
+                    for f in futs {
+                        res.push(match f {
+                            None => "none".to_string(),
+                            Some(f) => match tokio::time::timeout(std::time::Duration::from_secs(3600), f).await {
+                                Err(_) => "pending".to_string(),
+                                Ok(Ok(m)) => format!("got:{}:{}", m.get_hop_by_hop_id(), m.get_end_to_end_id()),
+                                Ok(Err(_)) => "err".to_string(),
+                            },
+                        });
+                    }
+                    let stopped = tokio::time::timeout(std::time::Duration::from_secs(3600), reader).await.is_ok();
+                    sync_hooks(&ulog);
+                    let mut late_res = "none".to_string();
+                    if let Some(h) = late {
+                        ulog.lock().unwrap().push(format!("sb:{}", plan.len()));
+                        let before = count_reg(&ulog);
+                        let r = client.send_message(request(h, 0)).await;
+                        sync_hooks(&ulog);
+                        let registered = count_reg(&ulog) > before;
+                        ulog.lock().unwrap().push(format!("ret:{}:{}", plan.len(), if r.is_ok() { "ok" } else { "err" }));
+                        late_res = match r {
+                            Err(_) => "err".to_string(),
+                            Ok(f) => match tokio::time::timeout(std::time::Duration::from_secs(3600), f).await {
+                                Err(_) => "fut:pending".to_string(),
+                                Ok(Ok(m)) => format!("fut:got:{}:{}", m.get_hop_by_hop_id(), m.get_end_to_end_id()),
+                                Ok(Err(_)) => "fut:err".to_string(),
+                            },
+                        };
+                        if registered {
+                            res.push(late_res.trim_start_matches("fut:").to_string());
+                        }
+                    }
+                    sync_hooks(&ulog);
+                    let u = ulog.lock().unwrap();
+                    format!(
+                        "trace={} res={} stopped={} late={}",
+                        if u.is_empty() { "-".to_string() } else { u.join(",") },
+                        if res.is_empty() { "-".to_string() } else { res.join(",") },
+                        stopped as u8,
+                        late_res
+                    )
+                })
+            }
             ["fx", t, h] => match unhex(h) {
                 Some(b) => fx_line(t, &b).unwrap_or_else(|| "bad-op".into()),
                 None => "bad-op".into(),
